@@ -146,7 +146,7 @@ def gen(rng, shard, nshards, curves, n_cases):
     for c in curves:
         g = GROUPS[c]
         cases.extend(gen_curve(rng, g, max(1, int(n_cases / COST[c])), COST[c]))
-    return cases
+    return vary_forms(cases, rng)
 
 
 def main(argv):
